@@ -288,7 +288,7 @@ def run(ctx: Ctx) -> None:
                                                  {n: "list" for n, _ in scens[sn]["inputs"]}, st, False, root, entry=entry))
         # two runs into ONE folder (the second with other inputs and shapes) with loads in between, all in one process;
         # then the identical request again with cleanup=False (nothing to do, nothing refused)
-        for sn in (["zip", "chain"] if quick else [s for s in scens if s not in ("gen", "twogen")]):
+        for sn in (["zip", "chain", "partial"] if quick else [s for s in scens if s not in ("gen", "twogen")]):
             for st in storages:
                 traces.append(run_and_reload(scens[sn]["desc"], scens[sn]["inputs"], {n: "list" for n, _ in scens[sn]["inputs"]},
                                              st, False, root, resume_after=True, inputs2=shorter(scens[sn]["inputs"])))
